@@ -232,3 +232,10 @@ def jobs(tier):
         j.ghost = ghost
         out.append(j)
     return out
+
+
+def native_checks(tier):
+    """alias-defined convenience rules: compared by the compiler with their documented expansions (type identity; exact, no bound on
+    inputs — listed with the native stand-ins because it is not a CBMC obligation)"""
+    return [dict(name='alias_identity', props=('C09',), src='bounded/alias_identity.cpp', args=[],
+                 bound='type identity (std::is_same / is_base_of) of 31 alias-defined rules and contrib if_then chains with their documented expansions; exact for these rules, transcription of doc/Rule-Reference.md by hand')]
